@@ -306,6 +306,8 @@ func (g *Gen) run() {
 					g.assume(g.typeInv(v, st))
 				}
 			}
+			g.frameTags[ltag] = true
+			g.autoFrame(wl, st)
 			henv := g.loopEnv(b, nil, st)
 			for _, c := range spec.Inv {
 				if c.Tier == "thorough" && g.tier != "thorough" {
@@ -418,6 +420,34 @@ func (g *Gen) checkNamed(kind, what, cond, desc string) {
 	g.check(kind, what, cond, desc)
 	g.noRefine = false
 	g.cur = save // spec obligations do not refine the path
+}
+
+// autoFrame: at a loop head, objects that existed at function entry are
+// unchanged in every heap for which the function has no modifies entry.
+// This is not an extra assumption: each write to such a heap carries a frame
+// obligation (target fresh or listed), so by induction over the execution no
+// entry object of that heap is ever written.
+func (g *Gen) autoFrame(heaps []string, st *State) {
+	if g.ct == nil || g.ct.ModAll || g.ct.Skip["frame"] {
+		return
+	}
+	listed := map[string]bool{}
+	for _, m := range g.ownMods() {
+		listed[m.heap] = true
+	}
+	for _, k := range heaps {
+		hs, ok := g.heapSort[k]
+		if !ok || listed[k] || strings.HasPrefix(k, "Gh.") || k == "ChanN" || k == "ChanV" || k == "Held" || k == "Closed" || strings.HasPrefix(k, "Map") {
+			continue
+		}
+		cur, ok := st.heaps[k]
+		if !ok {
+			continue
+		}
+		ent := g.declConst(k+"@0", hs)
+		g.setVerAlloc(k, ent, g.entry.alloc)
+		g.assume(fmt.Sprintf("(forall ((r Int)) (! (=> (<= r %s) (= (select %s r) (select %s r))) :pattern ((select %s r))))", g.entry.alloc, cur, ent, cur))
+	}
 }
 
 // autoInv: structural invariants that need no annotation. For a range loop
@@ -1288,7 +1318,7 @@ func (g *Gen) ret(x *ssa.Return) {
 	}
 	env := g.funcEnv(g.st, g.entry, res)
 	for k, c := range g.ct.Ensures {
-		if c.Tier == "thorough" && g.tier != "thorough" {
+		if (c.Tier == "thorough" && g.tier != "thorough") || c.Assumed {
 			continue
 		}
 		g.checkNamed("post", clauseName(c, k), env.boolOf(c.E), "postcondition: "+c.Src)
